@@ -327,9 +327,19 @@ func drawMultiProgram(t *rapid.T) (string, []File, []string) {
 		if !collide {
 			prefix = p.name + "x"
 		}
-		for j := 0; j < i; j++ {
-			if rapid.IntRange(0, 3).Draw(t, "dep") == 0 {
-				p.imports = append(p.imports, j)
+		// A third of the packages that can do so import at least two
+		// earlier ones (a nested import map with several entries); the
+		// others import each earlier package with probability 1/4.
+		if i >= 2 && rapid.IntRange(0, 2).Draw(t, "hub") == 0 {
+			n := rapid.IntRange(2, i).Draw(t, "nhubdeps")
+			p.imports = append(p.imports, rapid.Permutation(seq(i)).Draw(t, "hubdeps")[:n]...)
+			sortInts(p.imports)
+			tags["pkg-imports>=2-pkgs"] = true
+		} else {
+			for j := 0; j < i; j++ {
+				if rapid.IntRange(0, 3).Draw(t, "dep") == 0 {
+					p.imports = append(p.imports, j)
+				}
 			}
 		}
 		if len(p.imports) > 0 {
@@ -509,6 +519,14 @@ func seq(n int) []int {
 		r[i] = i
 	}
 	return r
+}
+
+func sortInts(s []int) {
+	for i := 1; i < len(s); i++ {
+		for j := i; j > 0 && s[j] < s[j-1]; j-- {
+			s[j], s[j-1] = s[j-1], s[j]
+		}
+	}
 }
 
 func sortStrings(s []string) {
